@@ -258,7 +258,7 @@ def check_repair(mols, specs, system, b):
     marks, _ = expected_targets(mols, specs)
     b.hits += 1
     try:
-        RepairGraph(include_graph=False).run_system(system)
+        util.shared(RepairGraph, include_graph=False).run_system(system)
     except Exception as e:
         import traceback
         return ('repair/exception/%s' % type(e).__name__, {'error': repr(e), 'trace': traceback.format_exc()[-600:]})
